@@ -22,15 +22,16 @@ RULE = ("metafiles: every creator of the tool (TorrentFile, TorrentFile align, T
         "(tracker set as list / as string / removed, url-list set / removed, info field edited); reference-encoded variants of them and "
         "metafiles of the reference encoder and hand-built dictionaries with arbitrary extra keys (non-UTF-8 keys, keys named like magnet "
         "parameters, decoy 'info' text before the info dictionary), cycling announce only / announce-list only / both / neither x url-list "
-        "list / string / absent, multi-tier lists, names with '/' and names / URLs that are not UTF-8.  Metafiles AT SCALE (64 KiB .. 1 MiB; "
-        "the rest stays below a few KiB): the tool's creators on sparse single files of 4200 .. 16500 pieces of 16 KiB (v1 info dictionaries "
+        "list / string / absent, multi-tier lists, names with '/' and names / URLs that are not UTF-8.  Metafiles AT SCALE (64 KiB .. 2 MiB; "
+        "the rest stays below a few KiB; above 256 KiB only the hash strings grow): the tool's creators on sparse single files of 4200 .. "
+        "16500 pieces of 16 KiB (v1 info dictionaries "
         "above 128 / 256 KiB, v2 / hybrid piece layers above 256 KiB) with trackers and web seeds, those files edited by edit_torrent and "
         "reference-encoded variants of them; hand-built dictionaries of each version ONE component of which is scaled up (pieces, files "
-        "list, file tree, piece layers, announce-list or url-list of thousands of entries) and padded so that the info dictionary -- or the "
-        "whole metafile -- has exactly 2^k - 1, 2^k and 2^k + 1 bytes for 2^k = 64 KiB .. 256 KiB (quick; one at 1 MiB) and up to 1 MiB, "
+        "list, file tree, piece layers, announce-list or url-list; the lists of up to 1200 entries, thorough 3000) and padded so that the info dictionary -- or the "
+        "whole metafile -- has exactly 2^k - 1, 2^k and 2^k + 1 bytes for 2^k = 64 KiB .. 256 KiB (quick; also 1 MiB and 2 MiB + 1) and up to 2 MiB, "
         "3 * 2^k and random offsets (thorough), always with announce, a multi-tier announce-list and url-list; metafiles above "
         "600000 bytes are judged end to end only.  Every metafile is asked for version "
-        "0, 1, 2 and 3 through commands.magnet; a subset also through commands.get_magnet, cli.execute and a fresh `python -m torrentfile "
+        "0, 1, 2 and 3 (at scale in the quick tier: 0 and one other in rotation; model tie on those below 300000 bytes) through commands.magnet; a subset also through commands.get_magnet, cli.execute and a fresh `python -m torrentfile "
         "magnet` process.  A case is distinct by (SHA-1 of the metafile bytes, version, route).  Model tie: returned string = extracted "
         "Model/Magnet.v on the file bytes; quote_plus / unquote_plus of urllib = extracted Model/Uri.v on all 256 bytes, all '%XY' triples, "
         "(thorough: all 65536 two-byte strings) and random strings.  End to end, without the model: the URI is parsed with urllib.parse "
@@ -599,12 +600,12 @@ def metafiles(ctx, g, tmp):
 # edit_torrent (edited here) and reference-encoded variants of them; (b) dictionaries written down by hand and encoded by the
 # reference encoder, ONE component of which is scaled up (pieces / files list / file tree / piece layers / announce-list /
 # url-list) and then padded so that the size of the info dictionary, or of the whole metafile, lands exactly on, one byte below
-# and one byte above a power-of-two threshold (64 KiB .. 1 MiB; thorough also 3 * 2^k) -- always WITH trackers and web seeds,
+# and one byte above a power-of-two threshold (64 KiB .. 2 MiB; thorough also 3 * 2^k) -- always WITH trackers and web seeds,
 # so that every parameter of the URI has something to lose.  They are judged like every other metafile (urllib + hashlib over
 # the raw info span).
 BIG = 1 << 16                      # from here on a metafile counts as "at scale"
 MODEL_BOUND = 600000               # extracted model: bytes per case (notes/HARNESS_GUIDE.md)
-THRESHOLDS = ([1 << 16, 1 << 17, 1 << 18], [3 << 16, 1 << 19, 3 << 17, 1 << 20])
+THRESHOLDS = ([1 << 16, 1 << 17, 1 << 18], [3 << 16, 1 << 19, 3 << 17, 1 << 20, 1 << 21])
 BIG_COMPONENTS = {1: ["pieces", "files", "url-list", "announce-list"],
                   2: ["piece layers", "file tree", "announce-list", "url-list"],
                   3: ["piece layers", "pieces", "file tree", "files", "url-list", "announce-list"]}
@@ -718,7 +719,7 @@ def big_synthetic(ctx, g):
     deltas = [-1, 0, 1] if quick else [-1, 0, 1, -16, 16, None]
     combos = [(th, what, delta) for th in ths for what in ("info", "metafile") for delta in deltas]
     if quick:
-        combos.append((1 << 20, "info", 0))
+        combos += [(1 << 20, "info", 0), (1 << 21, "info", 1)]
     used = {1: 0, 2: 0, 3: 0}
     for j, (th, what, delta) in enumerate(combos):
         for ver in (((1, 3), (2, 1), (3, 2))[j % 3] if quick else (1, 2, 3)):
